@@ -184,7 +184,7 @@ func genOpts() hx.GenOpts {
 
 // RunSteps: every menu step from every context node of every scripted document.
 func RunSteps() {
-	b := hx.GenOrSkeleton(genOpts())
+	b := hx.GenOrFixed(genOpts())
 	nd.Assert(b.TieOK, "store-mirrors-script")
 	ctx := nd.Choice(len(b.Doc.Nodes))
 	cur := b.Cursors[ctx]
